@@ -946,11 +946,51 @@ def _literal_predicate(test):
     return None
 
 
+def _edit1(a, b):
+    """edit distance exactly 1 (substitution, insertion or deletion)"""
+    if a == b or abs(len(a) - len(b)) > 1:
+        return False
+    if len(a) == len(b):
+        return sum(1 for x, y in zip(a, b) if x != y) == 1
+    if len(a) > len(b):
+        a, b = b, a
+    return any(b[:i] + b[i + 1:] == a for i in range(len(b)))
+
+
+def _follows(fn_node, first, later):
+    """does `later` sit in a statement that comes after (an enclosing statement of) `first` in some common block?"""
+    pm = parent_map(fn_node)
+
+    def chain_up(n_):
+        out = []
+        while n_ is not None and n_ is not fn_node:
+            out.append(n_)
+            n_ = pm.get(n_)
+        out.append(fn_node)
+        return out
+    ua, ub = chain_up(first), chain_up(later)
+    ids_b = {id(x): i for i, x in enumerate(ub)}
+    for i, anc in enumerate(ua):
+        if id(anc) in ids_b and i > 0:
+            if not all(isinstance(x, (ast.For, ast.While, ast.With)) for x in ua[1:i]):
+                return False        # the chain sits in one alternative of an enclosing statement: other paths bypass it
+            ca, cb = ua[i - 1], ub[ids_b[id(anc)] - 1] if ids_b[id(anc)] > 0 else None
+            if cb is None or ca is cb:
+                return False
+            for fld in ("body", "orelse", "finalbody"):
+                blk = getattr(anc, fld, None)
+                if isinstance(blk, list) and any(x is ca for x in blk) and any(x is cb for x in blk):
+                    return [k for k, x in enumerate(blk) if x is ca][0] < [k for k, x in enumerate(blk) if x is cb][0]
+            return False
+    return False
+
+
 def shadowed_branch_rule(index, rep, rid, modules):
     """In an if/elif chain that dispatches on string literals, every branch can be reached: no branch's literals are all
     accepted by an earlier branch (the keyword would silently get the earlier branch's meaning)."""
     n = 0
     seen = set()
+    closed = {}
     for m in modules:
         for f in index.functions_in_module(m):
             for node in walk_no_nested(f.node):
@@ -977,8 +1017,58 @@ def shadowed_branch_rule(index, rep, rid, modules):
                     n += 1
                     earlier = [q for q in preds[:i] if q and q[0] == p_[0]]
                     shadow = [lit for lit in p_[1] if any(lit in q[1] or any(lit.startswith(pre) for pre in q[2]) for q in earlier)]
+                    closed.setdefault((f.qualname, p_[0]), None)
                     rep.check(len(shadow) < len(p_[1]) or not shadow, rid, f.qualname, "branch for %s is unreachable" % sorted(p_[1]), fn_where(f, chain[i]), "",
                               "%s: the branch `%s` can never be taken - every keyword it tests (%s) is already accepted by an earlier branch of the same chain, so that keyword gets the earlier branch's meaning (a NEXUS `datatype=nucleotide` read as DNA, an option value silently treated as another)" % (f.qualname, norm(chain[i].test)[:60], ", ".join(sorted(shadow))))
+    # (b) a closed vocabulary: where a chain over one subject ends in `else: raise`, the keywords its branches accept are
+    #     all the subject can be afterwards; a later test of the same subject against another spelling can never hold
+    for m in modules:
+        for f in index.functions_in_module(m):
+            chains = []
+            tails = {id(x.orelse[0]) for x in walk_no_nested(f.node) if isinstance(x, ast.If) and len(x.orelse) == 1 and isinstance(x.orelse[0], ast.If)}
+            for node in walk_no_nested(f.node):
+                if isinstance(node, ast.If) and id(node) not in tails:
+                    chain = []
+                    cur = node
+                    last_else = None
+                    while isinstance(cur, ast.If):
+                        chain.append(cur)
+                        last_else = cur.orelse
+                        cur = cur.orelse[0] if len(cur.orelse) == 1 and isinstance(cur.orelse[0], ast.If) else None
+                    if len(chain) >= 2 and last_else and len(last_else) == 1 and isinstance(last_else[0], ast.Raise):
+                        chains.append(chain)
+            for chain in chains:
+                preds = [_literal_predicate(c.test) for c in chain]
+                subs = {p_[0] for p_ in preds if p_}
+                if len(subs) != 1:
+                    continue
+                subj = subs.pop()
+                if any(p_ and p_[2] for p_ in preds):
+                    continue
+                vocab = set().union(*[p_[1] for p_ in preds if p_])
+                nonlit = [c for c, p_ in zip(chain, preds) if p_ is None]
+                if any(not (isinstance(c.test, ast.Compare) and norm(c.test.left) == subj and is_none(c.test.comparators[0])) for c in nonlit):
+                    continue            # a branch we cannot read may accept anything
+                inchain = {id(c) for c in chain}
+                for other in walk_no_nested(f.node):
+                    tests = []
+                    if isinstance(other, (ast.If, ast.While, ast.IfExp)) and id(other) not in inchain:
+                        tests = [other.test]
+                    for t in tests:
+                        for sub in ast.walk(t):
+                            p2 = _literal_predicate(sub) if isinstance(sub, (ast.Compare, ast.BoolOp)) else None
+                            if p2 and p2[0] == subj and p2[1] and not any(id(sub) == id(x) or any(sub is y for y in ast.walk(x.test)) for x in chain):
+                                if not _follows(f.node, chain[0], sub):
+                                    continue        # the vocabulary is closed only for what runs after the validating chain
+                                n += 1
+                                extra = sorted(p2[1] - vocab)
+                                missing = vocab - p2[1]
+                                squash = lambda w: "".join(ch for ch in w.lower() if ch.isalnum())
+                                near = [e for e in extra if any(squash(e) == squash(w) or _edit1(e, w) for w in missing)]
+                                if extra and not near and (p2[1] & vocab):
+                                    extra = []      # an extra synonym next to accepted keywords is dead weight, not a misspelling
+                                rep.check(not extra, rid, f.qualname, "keyword %s is outside the vocabulary the function accepts" % extra, fn_where(f, sub), "",
+                                          "%s tests `%s` against %s, but the chain that validates it accepts only %s and raises for anything else: that spelling can never arrive, so the action it guards (deriving the edge lengths from the summarised ages, say) silently never happens for the keyword it was meant for" % (f.qualname, subj, extra, sorted(vocab)))
     return n
 
 
